@@ -269,6 +269,10 @@ def search_pack_states(ck):
         states = [(iso, 0, False, 0) for iso in cls().isotopes_distribution]
         states += [(None, ch, rad, 0) for ch in range(-4, 5) for rad in (False, True)]
         states += [(None, 0, False, h) for h in (0, 1, 2, 3, 4, None)]
+        # the fields share bytes of the atom block: every tabulated isotope also combined with the radical flag and the extreme /
+        # a middle charge and hydrogen count
+        states += [(iso, ch, rad, h) for iso in cls().isotopes_distribution for rad in (False, True)
+                   for ch, h in ((0, 0), (-4, 4), (4, None), (1, 2)) if (ch, rad, h) != (0, False, 0)]
         for iso, ch, rad, h in states:
             m = MoleculeContainer()
             a = cls(iso, charge=ch, is_radical=rad)
@@ -364,6 +368,11 @@ def search_matcher_states(ck):
         isos = sorted(cls().isotopes_distribution)
         states = [(iso, 0, False, 0) for iso in isos]
         states += [(None, ch, rad, h) for ch in range(-4, 5) for rad in (False, True) for h in range(5)]
+        # the fields are not independent in the layout (isotope-labelled atoms take another branch of the encoder for the radical
+        # bit, charge and hydrogens share a word with the isotope bits): every tabulated isotope also with the radical flag, with
+        # the extreme and a middle charge / hydrogen count (the theorem covers the full product; the live sweep samples its corners)
+        states += [(iso, ch, rad, h) for iso in isos for rad in (False, True) for ch, h in ((0, 0), (-4, 4), (4, 0), (1, 2))
+                   if (ch, rad, h) != (0, False, 0)]
         for iso, ch, rad, h in states:
             m = MoleculeContainer()
             m.add_atom(cls(iso, charge=ch, is_radical=rad), 1)
